@@ -582,6 +582,24 @@ func spaceTreeOrders(nMin, nMax int) func(emit func(Input)) {
 	}
 }
 
+// spaceAllRotations presents every input of sp with its edge list rotated by 1..m-1 positions (the input itself is
+// left to sp).
+func spaceAllRotations(sp func(emit func(Input))) func(emit func(Input)) {
+	return func(emit func(Input)) {
+		sp(func(in Input) {
+			m := in.M()
+			for r := 1; r < m; r++ {
+				flat := make([]int, 0, 2*m)
+				for i := 0; i < m; i++ {
+					j := (i + r) % m
+					flat = append(flat, in.E[2*j], in.E[2*j+1])
+				}
+				emit(relabel(flat))
+			}
+		})
+	}
+}
+
 func spaceFilter(sp func(emit func(Input)), keep func(in Input) bool) func(emit func(Input)) {
 	return func(emit func(Input)) {
 		sp(func(in Input) {
